@@ -2,7 +2,6 @@
 package c08
 
 import (
-	"errors"
 	"fmt"
 	"os"
 	"regexp"
@@ -111,7 +110,9 @@ func gen(t *rapid.T) Case {
 		maxN = 40
 	}
 
-	c.ConnTimeoutUS = transitUS + int64(rapid.IntRange(3, 40).Draw(t, "connTimeoutExtraMS"))*1000
+	// timeouts leave several milliseconds beyond the transit bound: "sent in full before the deadline"
+	// must not hinge on the implementation's polling cadence
+	c.ConnTimeoutUS = transitUS + int64(rapid.IntRange(10, 40).Draw(t, "connTimeoutExtraMS"))*1000
 
 	n := rapid.IntRange(min(2, maxN), maxN).Draw(t, "n")
 	if maxN == 40 {
@@ -120,7 +121,7 @@ func gen(t *rapid.T) Case {
 	for i := 0; i < n; i++ {
 		r := RPC{
 			Behaviour: rapid.SampledFrom([]string{"now", "now", "now", "late", "never"}).Draw(t, "behaviour"),
-			TimeoutUS: transitUS + int64(rapid.IntRange(3, 40).Draw(t, "timeoutExtraMS"))*1000,
+			TimeoutUS: transitUS + int64(rapid.IntRange(10, 40).Draw(t, "timeoutExtraMS"))*1000,
 			Marker:    fmt.Sprintf("m%d-%s", i, rapid.StringMatching(`[a-z]{3}`).Draw(t, "marker")),
 			Op:        rapid.SampledFrom([]string{"get", "get-config", "lock"}).Draw(t, "op"),
 		}
@@ -133,7 +134,7 @@ func gen(t *rapid.T) Case {
 		case "now":
 			if rapid.Bool().Draw(t, "delayed") {
 				// the reply is sent, in full, at least transitUS before the deadline
-				r.DelayUS = int64(rapid.IntRange(1, int(r.TimeoutUS-transitUS-1000)).Draw(t, "delayUS"))
+				r.DelayUS = int64(rapid.IntRange(1, int(r.TimeoutUS-transitUS-7000)).Draw(t, "delayUS"))
 			}
 		case "late":
 			r.DelayUS = int64(rapid.IntRange(1, 8000).Draw(t, "lateUS"))
@@ -301,9 +302,7 @@ func run(c Case) ev.Verdict {
 					i, spec.Op, spec.DelayUS, timeout, err)
 			}
 
-			if !errors.Is(err, util.ErrTimeoutError) {
-				return ev.Fail("rpc %d: error %v, want a timeout error", i, err)
-			}
+			// ("its own reply or an error": which class of error is C05's business)
 
 			sawLate = true
 			v.Classes = append(v.Classes, "timed-out:"+spec.Behaviour)
@@ -311,9 +310,12 @@ func run(c Case) ev.Verdict {
 			continue
 		}
 
-		if spec.Behaviour != "now" {
-			return ev.Fail("rpc %d (%s): returned a result %q although no reply was sent before its deadline", i, spec.Behaviour, result)
+		if spec.Behaviour == "never" {
+			return ev.Fail("rpc %d (never answered): returned a result %q although the server sent no reply to it", i, result)
 		}
+
+		// (a call that still gets hold of its own late reply is fine: the statement only forbids
+		// handing it to another call; whether it is "too late" is C05's business)
 
 		if failed != nil {
 			return ev.Fail("rpc %d: reply marked failed: %v", i, failed)
